@@ -4,7 +4,7 @@
 //!   F <path>                 select a TZif file (TimeZone::from_tz_data)
 //!   S <tz string>            select a POSIX TZ string (settings with a failing reader)
 //!   T <unix time>            -> "T <offset> <abbr> <isdst>"  or  "T ERR <error>"
-//!   L <y> <mo> <d> <h> <mi> <s>  -> "L <instant>,<instant>,..." (valid results, ascending) or "L ERR .."
+//!   L <y> <mo> <d> <h> <mi> <s>  -> "L <instant>,...|<gap instant>:<offset before>:<offset after>,..." or "L ERR .."
 //!   X <y0> <y1>              -> "X <instants...>" model DST start/end instants of the selected rule for years y0..=y1
 //!                               (taken from the reference model; they only select where to probe)
 //! one response line per request line (F/S answer "OK" or "ERR ..").
@@ -73,12 +73,14 @@ pub fn run(args: &crate::common::Args) -> i32 {
                     Some(z) => match crate::common::guard(|| DateTime::find(v[0] as i32, v[1] as u8, v[2] as u8, v[3] as u8, v[4] as u8, v[5] as u8, 0, z.as_ref()).map(|l| l.into_inner()).map_err(|e| format!("{e:?}"))) {
                         Ok(Ok(list)) => {
                             let mut xs: Vec<String> = vec![];
+                            let mut sk: Vec<String> = vec![];
                             for k in list {
-                                if let FoundDateTimeKind::Normal(d) = k {
-                                    xs.push(d.unix_time().to_string());
+                                match k {
+                                    FoundDateTimeKind::Normal(d) => xs.push(d.unix_time().to_string()),
+                                    FoundDateTimeKind::Skipped { before_transition, after_transition } => sk.push(format!("{}:{}:{}", before_transition.unix_time(), before_transition.local_time_type().ut_offset(), after_transition.local_time_type().ut_offset())),
                                 }
                             }
-                            writeln!(w, "L {}", xs.join(",")).unwrap();
+                            writeln!(w, "L {}|{}", xs.join(","), sk.join(",")).unwrap();
                         }
                         Ok(Err(e)) => writeln!(w, "L ERR {e}").unwrap(),
                         Err(m) => writeln!(w, "L ERR PANIC {m}").unwrap(),
